@@ -30,6 +30,8 @@ pub enum Case {
     Word { word: String },
     /// The entries of a compound written to CBOR by hand in the given key order (not the encoder's own).
     KeyOrder { entries: Vec<(String, i32, i32)>, rotate: usize, reverse: bool },
+    /// Shipped constant #i looked up through the index by its own words and compared with the file.
+    Indexed { index: usize },
     /// The identifier a derived unit had when /verif was pinned (harness/data/ids_pinned.json).
     Pinned { variant: String, id: u32, singular: String, plural: String },
 }
@@ -244,6 +246,17 @@ fn check(c: &Case) -> CaseReport {
                 }
                 Ok((entries.len() >= 2, vec!["foreign-key-order"]))
             }
+            Case::Indexed { index } => {
+                let f = &facts().all[*index];
+                if !crate::facts::typable(&f.tokens) {
+                    return Ok((false, vec!["untypable(skipped)"]));
+                }
+                let q = crate::facts::phrase(&f.tokens);
+                match super::c16::differential(crate::tool::shared_db(), &f.tokens, &q) {
+                    Some((sig, why)) => return Err((sig, format!("{}: {}", q, why))),
+                    None => Ok((true, vec!["shipped-constant-through-the-index"])),
+                }
+            }
             Case::Pinned { variant, id, singular, plural } => {
                 // the identifier this unit had when /verif was pinned (data written by an earlier
                 // build carries it) must still decode, and to the unit its documented name denotes
@@ -358,7 +371,7 @@ fn rational_case() -> impl Strategy<Value = Case> {
 }
 
 pub fn run_check(ctx: &Ctx) {
-    ctx.set_rule("exhaustive: all 86 registry units (name -> Compound -> CBOR -> back; the id written by the code equals the id documented in tools/gen/data.toml; a CBOR value hand-built from the documented id decodes to the same unit; ids pairwise distinct; every identifier pinned in harness/data/ids_pinned.json — what data written by the pinned build contains — still decodes, to a unit with the same singular/plural name, equal to the unit its documented name parses to) and every shipped constant (decode, re-encode, decode, equal, byte-identical, unit ids inside the registry); every accepted vocabulary word (parse -> CBOR -> back); generated: compounds of 1-6 units with every SI prefix (plus the gram's bias) and powers -9..9 built from documented ids, the same compounds written by hand in another map-key order (must decode to an equal compound with identical display and canonical re-encoding), rationals up to 2000 bits through CBOR and JSON, constants; non-trivial = derived unit / compound with >=2 units incl. a derived one / rational with >64-bit numerator / constant; distinct by case");
+    ctx.set_rule("exhaustive: all 86 registry units (name -> Compound -> CBOR -> back; the id written by the code equals the id documented in tools/gen/data.toml; a CBOR value hand-built from the documented id decodes to the same unit; ids pairwise distinct; every identifier pinned in harness/data/ids_pinned.json — what data written by the pinned build contains — still decodes, to a unit with the same singular/plural name, equal to the unit its documented name parses to) and every shipped constant (decode, re-encode, decode, equal, byte-identical, unit ids inside the registry; and, looked up by its own words, the constant stored in the index equals the one in the file field by field, tokens included); every accepted vocabulary word (parse -> CBOR -> back); generated: compounds of 1-6 units with every SI prefix (plus the gram's bias) and powers -9..9 built from documented ids, the same compounds written by hand in another map-key order (must decode to an equal compound with identical display and canonical re-encoding), rationals up to 2000 bits through CBOR and JSON, constants; non-trivial = derived unit / compound with >=2 units incl. a derived one / rational with >64-bit numerator / constant; distinct by case");
     if std::env::var("VERIF_EMIT_PINS").is_ok() {
         emit_pins();
         std::process::exit(0);
@@ -383,8 +396,9 @@ pub fn run_check(ctx: &Ctx) {
     ctx.run_list("pinned-identifiers", &pins, check, |c| to_json(c));
     let n_ship = facts().all.len() as u64;
     ctx.run_enum("shipped-constants", n_ship, |i| Some(Case::Shipped { index: i as usize }), check, |c| to_json(c));
+    ctx.run_enum("shipped-constants-through-the-index", n_ship, |i| Some(Case::Indexed { index: i as usize }), check, |c| to_json(c));
     ctx.exhaustive.store(true, std::sync::atomic::Ordering::Relaxed);
-    ctx.put("exhaustive_scope", json!("all registry units and all shipped constants"));
+    ctx.put("exhaustive_scope", json!("all registry units and all shipped constants (direct decode, and as stored in and returned by the index)"));
     let n = ctx.tier.pick(60_000u64, 2_000_000);
     let w = crate::gen::words();
     ctx.run_enum("vocabulary-words", w.all.len() as u64, |i| Some(Case::Word { word: w.all[i as usize].word.text.clone() }), check, |c| to_json(c));
